@@ -348,6 +348,7 @@ func writeCorpus() {
 		"romram.basm": "%section boot .romtext iomode:async\n\tentry _start\n_start:\n\trset r0, 7\n\tr2o r0, o0\n\tj _start\n%endsection\n\n%section work .ramtext iomode:async\n\tentry _w\n_w:\n\trset r0, 1\n\trset r1, 2\n\trset r2, 3\n\trset r3, 4\n\trset r4, 5\n\trset r5, 6\n\tadd r4, r5\n\tadd r0, r1\n\tr2o r0, o0\n\tj _w\n%endsection\n\n%meta cpdef cpu romcode: boot, ramcode: work\n%meta ioatt lo cp:cpu, index:0, type:output\n%meta ioatt lo cp:bm, index:0, type:output\n%meta bmdef global registersize:8\n",
 		"data.basm":   "%section code .romtext iomode:async\n\tentry _start\n_start:\n\trset r0, 1\n\tinc r0\n\tr2o r0, o0\n\tj _start\n%endsection\n\n%section consts .romdata\n\ttab db 0x01, 0x02, 0x03, 0x04, 0x05\n\tone db 0x2a\n%endsection\n\n%meta cpdef cpu romcode: code, romdata: consts\n%meta ioatt lo cp:cpu, index:0, type:output\n%meta ioatt lo cp:bm, index:0, type:output\n%meta bmdef global registersize:8\n",
 		"movs.basm":   "%section code .romtext iomode:async\n\tentry _start\n_start:\n\tmov r0, 3\n\tmov r1, 200\n\tmov r2, r0\n\tadd r2, r1\n\tmov o0, r2\n\tj _start\n%endsection\n\n%meta cpdef cpu romcode: code\n%meta ioatt lo cp:cpu, index:0, type:output\n%meta ioatt lo cp:bm, index:0, type:output\n%meta bmdef global registersize:8\n",
+		"tfrag.basm":  "%meta bmdef global registersize:8\n%fragment addk\n\trset r1, {{.Params.k}}\n\tadd r0, r1\n%endfragment\n%section alpha .romtext k:3\n\tentry _start\n_start:\n\ti2r r0, i0\n\tcall8s addk\n\tr2o r0, o0\n\tj _start\n%endsection\n%section beta .romtext k:5\n\tentry _start\n_start:\n\ti2r r0, i0\n\tcall8s addk\n\tr2o r0, o0\n\tj _start\n%endsection\n%section gamma .romtext k:9\n\tentry _start\n_start:\n\ti2r r0, i0\n\tcall8s addk\n\tr2o r0, o0\n\tj _start\n%endsection\n%meta cpdef cpa romcode:alpha\n%meta cpdef cpb romcode:beta\n%meta cpdef cpc romcode:gamma\n%meta ioatt l0 cp:bm, type:input, index:0\n%meta ioatt l0 cp:cpa, type:input, index:0\n%meta ioatt l1 cp:cpa, type:output, index:0\n%meta ioatt l1 cp:cpb, type:input, index:0\n%meta ioatt l2 cp:cpb, type:output, index:0\n%meta ioatt l2 cp:cpc, type:input, index:0\n%meta ioatt l3 cp:cpc, type:output, index:0\n%meta ioatt l3 cp:bm, type:output, index:0\n",
 		"t.go":        "package main\n\nimport (\n\t\"bondgo\"\n)\n\nfunc main() {\n\tvar out0 bondgo.Output\n\tvar a uint8\n\tvar b uint8\n\tout0 = bondgo.Make(bondgo.Output, 3)\n\ta = 1\n\tb = 2\n\ta = a + b\n\tbondgo.IOWrite(out0, a)\n}\n",
 		"cfg.json":    "{\"DataType\":\"float32\",\"Params\":{\"expprec\":\"10\"}}\n",
 		"sb.json":     "{\"Rules\":[]}\n",
@@ -389,6 +390,7 @@ func main() {
 		{Name: "basm:rom+ram-code", Tool: "basm", Args: []string{"-o", "out.json", "romram.basm"}, Inputs: []string{"romram.basm"}, Outputs: []string{"out.json"}},
 		{Name: "basm:romdata", Tool: "basm", Args: []string{"-o", "out.json", "data.basm"}, Inputs: []string{"data.basm"}, Outputs: []string{"out.json"}},
 		{Name: "basm:mov-chooser", Tool: "basm", Args: []string{"-chooser-min-word-size", "-o", "out.json", "movs.basm"}, Inputs: []string{"movs.basm"}, Outputs: []string{"out.json"}},
+		{Name: "basm:templated-fragment", Tool: "basm", Args: []string{"-o", "out.json", "tfrag.basm"}, Inputs: []string{"tfrag.basm"}, Outputs: []string{"out.json"}},
 		{Name: "neuralbond:testsmall", Tool: "neuralbond", Args: []string{"-net-file", "net-testsmall.json", "-config-file", "cfg.json", "-neuron-lib-path", "/repo/library/neurons", "-save-basm", "nn.basm"}, Inputs: []string{"net-testsmall.json", "cfg.json"}, Outputs: []string{"nn.basm", "cfg.json"}},
 		{Name: "neuralbond:testsmall-fragment", Tool: "neuralbond", Args: []string{"-net-file", "net-testsmall.json", "-config-file", "cfg.json", "-neuron-lib-path", "/repo/library/neurons", "-operating-mode", "fragment", "-save-basm", "nn.basm"}, Inputs: []string{"net-testsmall.json", "cfg.json"}, Outputs: []string{"nn.basm", "cfg.json"}},
 		{Name: "bmqsim:bell", Tool: "bmqsim", Args: []string{"-build-matrix-seq-hardcoded", "-hw-flavor", "seq_hardcoded_real", "-save-basm", "q.basm", "program.bmq"}, Inputs: []string{"program.bmq"}, Outputs: []string{"q.basm"}},
